@@ -4,6 +4,7 @@
   The program-level theorems (C12 `compress_preserves_success_program2`, C20 `nothing_grows`, C04
   `two_outputs_corr`) are stated over `assembleItems H c items [] []` for abstract hooks `H` satisfying
   `LitOK`, `Neg1OK`, `OffsetHook`.  Here:
+    (b) `parseItem_wellKinded`: the instruction items the parser builds are `wellKinded` and not auipc-marked;
     (a) `textHooks fs` — the evaluator, the immediate parser and the file reader the front end really uses —
         satisfies the three hook hypotheses (`textHooks_litOK`, `textHooks_neg1OK`, `textHooks_offsetHook`), so
         the hypothesis bundles reduce to their program-dependent fields (`growHyps_text`, `c12Hyps_text`);
@@ -17,6 +18,8 @@
 -/
 import BB.Props.C12Program2
 import BB.Props.C04TwoOutputs
+import BB.Props.C20Program
+import BB.Lemmas.ParseKinds
 namespace BB.Props.Text
 open BB BB.Spec BB.Lemmas
 open BB.Props.C12 BB.Props.C20 BB.Props.C04
@@ -45,6 +48,35 @@ theorem c12Hyps_text (fs : FS) {items : List Item} (grow : GrowHyps (textHooks f
     (src : ∀ items1 constants, resolveConstants (textHooks fs) items [] = .ok (items1, constants) →
       ∀ x ∈ items, SrcOK (textHooks fs) constants (labelNames items) x) : C12Hyps (textHooks fs) items :=
   ⟨grow, textHooks_litOK fs, textHooks_neg1OK fs, src⟩
+
+/-! ### (b) what the parser builds is `wellKinded` -/
+
+/-- **`parse_item` on a machine-instruction line** (Lemmas/ParseKinds): the instruction item carries the line
+    it was parsed from, its mnemonic is the lower-cased first token, the auipc-pair mark is NOT set, and — unless
+    it is one of the hand-written `c.*` classes — its item class is the one the encoder table lists for the
+    mnemonic (`Instr.wellKinded`, the per-item hypothesis of `SrcOK` / `assemble_no_eligible_literal_left`). -/
+theorem parseItem_wellKinded {line l : Line} {tokens : List String} {ins : Instr}
+    (h : parseItem line tokens = .ok (.instr l ins)) :
+    l = line ∧ (∃ t0 rest, tokens = t0 :: rest ∧ ins.name = lowerS t0) ∧ ins.isAuipcJump = false ∧
+      (ins.isCompressed = false → ins.wellKinded = true) :=
+  BB.Lemmas.parseItem_wellKinded h
+
+/-- the same for one lexed source line -/
+theorem lexParseLine_wellKinded {line l : Line} {ins : Instr} (h : lexParseLine line = .ok (some (.instr l ins))) :
+    l = line ∧ ins.isAuipcJump = false ∧ (ins.isCompressed = false → ins.wellKinded = true) := by
+  unfold lexParseLine at h
+  split at h
+  · cases h
+  · cases h
+  · rename_i toks _ _
+    cases hp : parseItem line toks with
+    | error e => rw [hp] at h; cases h
+    | ok it =>
+      rw [hp] at h
+      simp only [Functor.map, Except.map, Except.ok.injEq, Option.some.injEq] at h
+      subst h
+      obtain ⟨h1, _, h3, h4⟩ := BB.Lemmas.parseItem_wellKinded hp
+      exact ⟨h1, h3, h4⟩
 
 /-! ### (c) corollaries over `assembleText` -/
 
@@ -141,11 +173,14 @@ theorem frontEnd_srcT : frontEnd fs0 "/" [] (.source srcT) = .ok progT := by
 
 theorem progT_consts : resolveConstants HT progT [] = .ok (progT, []) := by decide +kernel
 
-/-- closed literals are label-free with the REAL evaluator, by computation -/
+/-- closed literals are label-free with the REAL evaluator: non-negative numerals by `C20.labelFree_literal`,
+    the two negative ones by computation -/
 theorem lf_m32 : ImmLabelFree HT [] (.arith "-32") := fun _ _ _ _ _ => rfl
-theorem lf_hex : ImmLabelFree HT [] (.arith "0x12345") := fun _ _ _ _ _ => rfl
 theorem lf_m5 : ImmLabelFree HT [] (.arith "-5") := fun _ _ _ _ _ => rfl
-theorem lf_dw : ImmLabelFree HT [] (.arith "0x11223344") := fun _ _ _ _ _ => rfl
+theorem lf_hex : ImmLabelFree HT [] (.arith "0x12345") :=
+  labelFree_literal HT rfl [] "0x12345" 74565 (Or.inr (Or.inl (by decide +kernel))) (by decide +kernel)
+theorem lf_dw : ImmLabelFree HT [] (.arith "0x11223344") :=
+  labelFree_literal HT rfl [] "0x11223344" 287454020 (Or.inr (Or.inl (by decide +kernel))) (by decide +kernel)
 
 theorem progT_grow : GrowHyps HT progT := by
   refine growHyps_text fs0 (by unfold NonNeg; decide) ?_ (by decide) ?_ ?_
@@ -254,11 +289,9 @@ theorem progT_nocomp : NoCompressedSource progT := by
 
 /-- the output without `-c` (48 bytes, F = 36) and with it (34 bytes, F = 24); the real assembler agrees -/
 def r0 : AsmResult := { bytes := [99, 2, 5, 2, 239, 0, 0, 2, 19, 5, 5, 254, 183, 37, 1, 0, 147, 133, 85, 52, 19, 6, 176, 255, 147,
-    150, 54, 0, 147, 197, 245, 255, 227, 16, 181, 254, 103, 128, 0, 0, 1, 2, 3, 4, 68, 51, 34, 17],
-  labels := [("B", 0), ("F", 36)], constants := [] }
+    150, 54, 0, 147, 197, 245, 255, 227, 16, 181, 254, 103, 128, 0, 0, 1, 2, 3, 4, 68, 51, 34, 17], labels := [("B", 0), ("F", 36)], constants := [] }
 def r1 : AsmResult := { bytes := [1, 205, 25, 40, 1, 21, 201, 101, 147, 133, 85, 52, 109, 86, 142, 6, 147, 197, 245, 255, 227, 22,
-    181, 254, 130, 128, 1, 2, 3, 4, 68, 51, 34, 17],
-  labels := [("B", 0), ("F", 24)], constants := [] }
+    181, 254, 130, 128, 1, 2, 3, 4, 68, 51, 34, 17], labels := [("B", 0), ("F", 24)], constants := [] }
 
 theorem run0 : assembleItems HT false progT [] [] = .ok r0 := by decide +kernel
 theorem run1 : assembleItems HT true progT [] [] = .ok r1 := by decide +kernel
@@ -278,12 +311,22 @@ theorem srcT_compress_ok : ∃ r₁, assembleText fs0 "/" [] true (.source srcT)
   compress_preserves_success_text fs0 "/" [] (.source srcT) r0
     (fun items h => by rw [srcT_items h]; exact ⟨progT_hyps, progT_alignFree⟩) text_run0
 
-/-- **C20 at text level, instantiated** -/
-theorem srcT_nothing_grows := nothing_grows_text fs0 "/" [] (.source srcT) r0 r1
-  (fun items h => by rw [srcT_items h]; exact progT_grow) text_run0 text_run1
+/-- **C20 at text level, instantiated**: 34 ≤ 48 bytes, F: 24 ≤ 36, B: 0 ≤ 0, no other key in either table -/
+theorem srcT_nothing_grows :
+    r1.bytes.length ≤ r0.bytes.length ∧
+    (∀ ℓ v₀ v₁, r0.labels.get ℓ = some v₀ → r1.labels.get ℓ = some v₁ → v₁ ≤ v₀) ∧
+    (∀ ℓ, ℓ ∈ labelNames progT → ∃ v₀ v₁, r0.labels.get ℓ = some v₀ ∧ r1.labels.get ℓ = some v₁ ∧ v₁ ≤ v₀) ∧
+    (∀ ℓ, ℓ ∉ labelNames progT → r0.labels.get ℓ = none ∧ r1.labels.get ℓ = none) := by
+  obtain ⟨items, hf, h⟩ := nothing_grows_text fs0 "/" [] (.source srcT) r0 r1
+    (fun items h => by rw [srcT_items h]; exact progT_grow) text_run0 text_run1
+  rw [srcT_items hf] at h
+  exact h
 
 /-- **C04 (both outputs) at text level, instantiated** -/
-theorem srcT_two_outputs := two_outputs_text fs0 "/" [] (.source srcT) r0 r1
-  (fun items h => by rw [srcT_items h]; exact ⟨progT_grow, progT_nocomp⟩) text_run0 text_run1
+theorem srcT_two_outputs : TwoOutputs HT progT r0 r1 := by
+  obtain ⟨items, hf, h⟩ := two_outputs_text fs0 "/" [] (.source srcT) r0 r1
+    (fun items h => by rw [srcT_items h]; exact ⟨progT_grow, progT_nocomp⟩) text_run0 text_run1
+  rw [srcT_items hf] at h
+  exact h
 
 end BB.Props.Text
